@@ -24,7 +24,7 @@ def feat(LG):
 
 
 def generate(rng, tier, shard, nshards):
-    n = 8 if tier == "quick" else 60
+    n = 10 if tier == "quick" else 60
     for i in range(n):
         cs = CHARSETS[rng.randrange(len(CHARSETS))]
         LG = rops.rand_lark(rng, cs)
